@@ -103,6 +103,31 @@ theorem headKeep_plain (env : FilterEnv) (fenv : FormatEnv) :
   conv => lhs; rw [hp]
   exact sameHead_append_left _ hsh
 
+/-! ### filters whose value is the matched text and that have no formatter (`re`, `path`) -/
+
+/-- handler `g` answers with the text it consumed, and there is no formatter for it -/
+def TextFilter (env : FilterEnv) (g : Fid) : Prop :=
+  hasFormatter g = false ∧ ∀ s r, env g s = some r → r.val = .str (s.take r.n)
+
+/-- such a wildcard keeps the head of its text: what is put into the URL is the matched text -/
+theorem headKeep_text (env : FilterEnv) (fenv : FormatEnv) (g : Fid) (ht : TextFilter env g) :
+    HeadKeep (tokRes env (some g)) (piece env fenv (some g)) := by
+  intro path r nxt u _ hf hg rest' hsh
+  have hv : r.val = .str (path.take r.n) := ht.2 path r hf
+  have hu : u = path.take r.n := by
+    simp only [piece, fmtOut, ht.1, Bool.not_false, if_true, bind, Except.bind, pure, Except.pure] at hg
+    cases hsan : sanity env (some g) r.val nxt with
+    | error e => rw [hsan] at hg; cases hg
+    | ok _ =>
+      rw [hsan] at hg
+      simp only [Except.ok.injEq] at hg
+      rw [hv] at hg
+      simp only [Val.str.injEq] at hg
+      exact hg.symm
+  rw [hu]
+  conv => lhs; rw [← List.take_append_drop r.n path]
+  exact sameHead_append_left _ hsh
+
 /-! ### the `int` filter -/
 
 theorem digitZeros_head : Gen.digitZeros = 48 :: Gen.digitZeros.tail := by rfl
